@@ -132,6 +132,12 @@ pub fn decode_weight(wmode: u8, r: u8) -> f64 {
         // ulp exactly: strictly different lengths that any relative tolerance would call equal.
         // (Sums of four or more such weights need not be exact: see `ulp_exact`.)
         15 => 1.0 + ((r % 3) as f64) * (2.0f64).powi(-51),
+        // subnormal weights ((k+1) * 2^-1074 .. : probabilities of long chains, underflowed products):
+        // positive, ratios between them are ordinary numbers, but 1/w overflows
+        16 => ((r % 32) as f64 + 1.0) * f64::from_bits(1 << ((r / 32) % 4)),
+        // weights near the top of the double range ((k+1) * 2^1000): ratios are ordinary numbers, any
+        // product of two overflows (the shapes that scale a weight by a small count stay finite)
+        17 => ((r % 32) as f64 + 1.0) * (2.0f64).powi(1000),
         // signed weights (trust / distrust networks): sums can cancel exactly
         _ => [1.0, -1.0, 0.5, -0.5, 2.0, -2.0, 1.5, 1.0][(r % 8) as usize],
     }
